@@ -191,6 +191,36 @@ def stat_search(ctx, n, n_theta):
                                          f"g2=Bivariate(copula_type='{fam}', random_state={seed + 1}); g2.theta={th2}; g2.tau={g2.tau!r}\n"
                                          f"X1,X2=g1.sample(600),g2.sample(600)\nc=Bivariate(copula_type='{fam}', random_state={seed + 2}); c.fit(X1); c.fit(X2)\nS=c.sample({n})\n"
                                          f"t=kendalltau(S[:,0],S[:,1])[0]\nprint(t, c.tau, c.theta)\nassert abs(t-c.tau) < {tau_band!r}\n")})
+            # ... and after a REFUSED re-fit (negative dependence for Clayton / Gumbel): sample either refuses or follows the model's tau
+            if fam in ('clayton', 'gumbel'):
+                Xneg = np.column_stack([X1[:, 0], 1.0 - X1[:, 1]])
+                c2 = Bivariate(copula_type=fam, random_state=seed + 3)
+                with np.errstate(all='ignore'):
+                    c2.fit(X2)
+                    try:
+                        c2.fit(Xneg)
+                        refused = False
+                    except ValueError:
+                        refused = True
+                    try:
+                        S2 = np.asarray(c2.sample(n), dtype=float)
+                    except Exception:
+                        S2 = None
+                ctx.case(('stat-refused-refit', fam), None)
+                if refused and S2 is not None:
+                    t2 = float(kendalltau(S2[:, 0], S2[:, 1])[0])
+                    if abs(t2 - float(c2.tau)) > tau_band:
+                        hits += 1
+                        ctx.violation(f'search:refused-refit-then-sample-tau-mismatch:{fam}',
+                                      f'{fam}: fit(X2, tau~{g2.tau:.2f}); fit(negatively dependent data) -> ValueError; sample({n}) returns a sample with Kendall tau '
+                                      f'{t2:.3f} while the model says tau = {float(c2.tau):.3f} (theta = {float(c2.theta):.3f})',
+                                      {'family': fam, 'seed': seed, 'sample_tau': t2, 'model_tau': float(c2.tau), 'model_theta': float(c2.theta),
+                                       'repro': (f"import numpy as np\nfrom scipy.stats import kendalltau\nfrom copulas.bivariate import Bivariate\n"
+                                                 f"g=Bivariate(copula_type='{fam}', random_state={seed + 1}); g.theta={th2}; g.tau={g2.tau!r}\nX=g.sample(600)\n"
+                                                 f"c=Bivariate(copula_type='{fam}', random_state={seed + 3}); c.fit(X)\n"
+                                                 "try:\n    c.fit(np.column_stack([X[:,0], 1-X[:,1]]))\nexcept ValueError:\n    pass\n"
+                                                 f"try:\n    S=c.sample({n})\nexcept Exception:\n    raise SystemExit(0)\n"
+                                                 f"t=kendalltau(S[:,0],S[:,1])[0]\nprint(t, c.tau, c.theta)\nassert abs(t-c.tau) < {tau_band!r}\n")})
         except Exception as ex:
             if not (fam == 'gumbel' and 'different signs' in str(ex)):
                 hits += 1
